@@ -355,12 +355,11 @@ def latest(rec, key):
     raise KeyError(key)
 
 
-def ref_run(seq, n, rho0, record_channel):
-    """Reference semantics: {record: unnormalised rho}; record = tuple of (key, digits) in program order."""
+def ref_apply(items, rho0, record_channel):
+    """Reference semantics of a sequence of items (kind, key, outcomes, embedded Kraus operators):
+    {record: unnormalised rho}; record = tuple of (key, digits) in program order."""
     br = {(): np.asarray(rho0, dtype=complex)}
-    for li in seq:
-        L = _L[li]
-        Ks = ref_embedded(li, n)
+    for kind, key_, outcomes, Ks in items:
         nb = {}
 
         def put(rec, r):
@@ -370,24 +369,28 @@ def ref_run(seq, n, rho0, record_channel):
                 nb[rec] = r
 
         for rec, rho in br.items():
-            if L.kind == "cc":
-                if not any(latest(rec, L.key)):
+            if kind == "cc":
+                if not any(latest(rec, key_)):
                     put(rec, rho)
                     continue
-            if L.kind == "m":
-                for digits, P in zip(L.outcomes, Ks):
+            if kind == "m":
+                for digits, P in zip(outcomes, Ks):
                     r2 = P @ rho @ P
                     if np.trace(r2).real > EPS:
-                        put(rec + ((L.key, digits),), r2)
-            elif L.kind == "kk" and record_channel:
+                        put(rec + ((key_, digits),), r2)
+            elif kind == "kk" and record_channel:
                 for i, K in enumerate(Ks):
                     r2 = K @ rho @ K.conj().T
                     if np.trace(r2).real > EPS:
-                        put(rec + ((L.key, (i,)),), r2)
+                        put(rec + ((key_, (i,)),), r2)
             else:
                 put(rec, sum(K @ rho @ K.conj().T for K in Ks))
         br = nb
     return br
+
+
+def ref_run(seq, n, rho0, record_channel):
+    return ref_apply([(_L[li].kind, _L[li].key, _L[li].outcomes, ref_embedded(li, n)) for li in seq], rho0, record_channel)
 
 
 def ref_cached(seq, n, init_i, record_channel, pure):
@@ -524,21 +527,40 @@ def run_dm(case):
         ref = ref_run(seq, n, rho0, False)
         ref_tot = sum(ref.values())
         got = []
+        has_cc = any(_L[li].kind == "cc" for li in seq)
+        if has_cc:
+            # classical control: final_density_matrix defers the measurements onto ancillas which it expects at the end
+            # of the DEFAULT qubit order (an explicit order list is rejected: reported by stage final_density_matrix_api);
+            # the result lives on the qubits the circuit touches (idle qubits are a |0><0| factor of the reference).
+            order = cirq.QubitOrder.DEFAULT
+            touched = sorted(full.all_qubits())
+            keep = [qs.index(q) for q in touched]
+            if keep != list(range(len(qs))):
+                ref_tot = E.partial_trace(ref_tot, keep, SHAPE[n])
+        else:
+            order = qs
 
         def one(ch):
             try:
-                return cirq.final_density_matrix(full, qubit_order=qs, dtype=DT[dt], seed=ScriptedRandomState(ch),
+                return cirq.final_density_matrix(full, qubit_order=order, dtype=DT[dt], seed=ScriptedRandomState(ch),
                                                  ignore_measurement_results=True)
             except TypeError as e:
                 if "unhashable type" in str(e):
-                    raise Viol(f"cirq.final_density_matrix raises TypeError({e}) on a circuit the DensityMatrixSimulator "
-                               f"accepts ({desc})", "final_density_matrix_unhashable_channel")
+                    raise Viol("unhashable", "skip")
+                raise
+            except ValueError as e:
+                if "Wrong shape of qids" in str(e) and any(_L[li].kind == "m" and _L[li].qt for li in seq):
+                    raise Viol("qudit measurement", "skip")
                 raise
 
         try:
             for ch, rho in explore(one, max_paths=4):
                 got.append((ch.weight, rho))
         except Viol as v:
+            if v.kind == "skip":
+                # API rejections of cirq.final_density_matrix that are reported ONCE by stage final_density_matrix_api
+                # (unhashable KrausChannel / MixedUnitaryChannel; measurement of a qudit)
+                return Res(skipped=True, nontrivial=False, counters={"fdm_rejected_" + str(v).split()[0]: 1})
             return bad(str(v), kind=v.kind)
         if len(got) != 1:
             return bad(f"final_density_matrix(ignore_measurement_results=True) drew random numbers ({len(got)} paths): {desc}", kind="fdm_random")
